@@ -142,7 +142,8 @@ def spec_resolve(t, keys):
     return found, missing, nonmap, cur
 
 
-@harness('X5d', targets=[f'{DICTS}.resolve', f'{DICTS}.parse_field'], props=['C04', 'C16', 'C18', 'C17', 'C15', 'C02', 'C03'],
+@harness('X5d', targets=[f'{DICTS}.resolve', f'{DICTS}.parse_field'], props=['C04', 'C16', 'C18', 'C17', 'C15', 'C02', 'C03', 'C05', 'C06', 'C08', 'C09', 'C10', 'C11', 'C14'],
+         prop_clauses={'C05': ['found_returns_value', 'parse_field'], 'C06': ['found_returns_value'], 'C08': ['found_returns_value', 'missing_key', 'parse_field'], 'C09': ['found_returns_value', 'missing_key', 'parse_field'], 'C10': ['found_returns_value', 'missing_key', 'parse_field'], 'C11': ['found_returns_value', 'parse_field'], 'C14': ['found_returns_value', 'missing_key']},
          clauses=['found_returns_value', 'missing_key', 'non_mapping', 'pure', 'parse_field'],
          canaries=['canary.never_raises', 'canary.always_default'],
          assumes=['X5d: documents are arbitrary JSON values (vc.json: any kind, any depth, string keys); paths of 0..3 arbitrary '
@@ -1938,7 +1939,8 @@ def E9(vc):
 
 
 # =========================================================================== X8d: dicts.cherrypick / dicts.walk
-@harness('X8d', targets=[f'{DICTS}.cherrypick', f'{DICTS}.walk'], props=['C04', 'C16', 'C03'],
+@harness('X8d', targets=[f'{DICTS}.cherrypick', f'{DICTS}.walk'], props=['C04', 'C16', 'C03', 'C05', 'C15'],
+         prop_clauses={'C05': ['copies_exactly_present_fields'], 'C15': ['copies_exactly_present_fields']},
          clauses=['copies_exactly_present_fields', 'non_mapping_in_source_is_absent', 'picker_applied', 'source_untouched', 'no_fields_no_change',
                   'walk_flattens', 'walk_nested_fields'],
          canaries=['canary.copies_nothing', 'canary.never_raises'],
@@ -2193,7 +2195,8 @@ def ref_remove(d, path):
 @harness('E9b', targets=[f'{DIFFBASE}.DiffBaseStorage.build', f'{DIFFBASE}.DiffBaseStorage.__init__',
                          f'{PROGRESS}.StatusProgressStorage.field', f'{PROGRESS}.StatusProgressStorage.touch_field',
                          f'{DIFFBASE}.StatusDiffBaseStorage.field'],
-         props=['C04', 'C16', 'C15', 'C14', 'C05'],
+         props=['C04', 'C16', 'C15', 'C14', 'C05', 'C10', 'C03'],
+         prop_clauses={'C10': ['ignored_fields_removed', 'undeletable_ignored_field_skipped'], 'C03': ['ignored_fields_removed', 'undeletable_ignored_field_skipped', 'pure']},
          clauses=['ignored_fields_removed', 'undeletable_ignored_field_skipped', 'ignored_fields_materialised', 'field_setters', 'pure'],
          canaries=['canary.nothing_ignored'],
          trusted=['copy.deepcopy: an equal, unshared copy of real containers (leaves are immutable values)',
